@@ -151,6 +151,9 @@ class Model:
         self.functions: dict[str, FuncInfo] = {}
         self._mro: dict[ClassInfo, list[ClassInfo]] = {}
         self._subs: dict[ClassInfo, set[ClassInfo]] = {}
+        self.absorbed: dict[str, FuncInfo] = {}
+        self.inlined_into: dict[str, list[str]] = {}
+        self.pulled_up: dict[str, str] = {}
         self._load()
 
     # ------------------------------------------------------------------ load
@@ -209,9 +212,32 @@ class Model:
             parts = q.split(".")
             return ".".join(parts[-2:])
 
+        # pull-up: a method the confirmed tree defines in class C that C now inherits is analysed as C's own
+        # (a copy of the inherited definition with `self: C`), so per-class rules keep their anchors and the
+        # type/effect engines dispatch its self-calls from C, not from the base class
+        for c in list(self.classes.values()):
+            for k in sorted(known):
+                cn, _, mn = k.partition(".")
+                if cn != c.name or not mn or mn in c.methods:
+                    continue
+                base_def = None
+                for b in self.mro(c)[1:]:
+                    if mn in b.methods:
+                        base_def = b.methods[mn]
+                        break
+                if base_def is None or any(isinstance(d, str) and d.endswith("abstractmethod") for d in base_def.decorators):
+                    continue
+                body = [x for x in base_def.node.body if not (isinstance(x, ast.Expr) and isinstance(x.value, ast.Constant))]
+                if all(isinstance(x, ast.Pass) or (isinstance(x, ast.Raise)) for x in body):
+                    continue  # still a stub
+                import copy as _copy
+                g = FuncInfo(mn, f"{c.qname}.{mn}", _copy.deepcopy(base_def.node), base_def.module, c)
+                c.methods[mn] = g
+                self.functions[g.qname] = g
+                self.pulled_up[g.qname] = base_def.qname
         new_helpers = {q: f for q, f in self.functions.items() if short(q) not in known and not f.name.startswith("__")}
-        self.absorbed: dict[str, FuncInfo] = {}
-        self.inlined_into: dict[str, list[str]] = {}
+        self.absorbed = {}
+        self.inlined_into = {}
         if not new_helpers:
             return
 
@@ -428,7 +454,11 @@ class Model:
 
     def method(self, cls: Union[str, ClassInfo], name: str, own: bool = False) -> FuncInfo:
         c = self.cls(cls) if isinstance(cls, str) else cls
-        f = c.methods.get(name) if own else self.lookup(c, name)
+        # own=True prefers the class's own definition; a method pulled up into a base class is still the
+        # code that runs for this class, so the inherited definition is the anchor then
+        f = c.methods.get(name) if own else None
+        if f is None:
+            f = self.lookup(c, name)
         if f is None:
             raise AnalysisError(f"anchor vanished: method {c.qname}.{name}")
         return f
